@@ -11,6 +11,7 @@ mod m_obs;
 mod m_own;
 mod m_race;
 mod m_obs_async;
+mod m_aobs;
 mod m_ovec;
 
 use std::io::{BufRead, Write};
@@ -26,6 +27,7 @@ fn main() {
         "lin" => m_lin::run_line,
         "own" => m_own::run_line,
         "race" => m_race::run_line,
+        "aobs" => m_aobs::run_line,
         #[cfg(eyeball_verif)]
         "conc" => m_conc::run_line,
         "obs" => {
